@@ -64,7 +64,16 @@ type obsClient struct {
 	mu      sync.Mutex
 	gating  bool
 	opens   []fkey
+	outc    []int        // per open: 0 ok, 1 open error, 2 corrupted (applied, Close fails), 3 file does not exist
 	bad     map[fkey]int // 1: OpenLTXFile fails; 2: trailer checksum corrupted
+	// race hook: runs inside the follower's OpenLTXFile call, before the file is
+	// opened (idx = number of opens so far in this poll); the harness uses it to run
+	// primary-side operations between the follower's listing and its opens
+	beforeOpen   func(idx int, k fkey)
+	opDone       bool // beforeOpen did something in this poll
+	listAfterOp  bool // a listing happened after that in the same poll
+	lastOutc     []int
+	lastListAfterOp bool
 	arrive  chan struct{}
 	release chan struct{}
 }
@@ -91,22 +100,50 @@ func (c *obsClient) LTXFiles(ctx context.Context, level int, seek ltx.TXID, useM
 			}
 		}
 	}
+	c.mu.Lock()
+	if c.opDone {
+		c.listAfterOp = true
+	}
+	c.mu.Unlock()
 	return c.ReplicaClient.LTXFiles(ctx, level, seek, useMetadata)
 }
 
 func (c *obsClient) OpenLTXFile(ctx context.Context, level int, minTXID, maxTXID ltx.TXID, offset, size int64) (io.ReadCloser, error) {
 	k := fkey{level, uint64(minTXID), uint64(maxTXID)}
 	c.mu.Lock()
+	idx := len(c.opens)
 	c.opens = append(c.opens, k)
+	c.outc = append(c.outc, 0)
 	bad := c.bad[k]
+	hook := c.beforeOpen
 	c.mu.Unlock()
+	setOutc := func(o int) {
+		c.mu.Lock()
+		if idx < len(c.outc) {
+			c.outc[idx] = o
+		}
+		c.mu.Unlock()
+	}
+	if hook != nil {
+		hook(idx, k)
+	}
 	if bad == 1 {
+		setOutc(1)
 		return nil, errors.New("injected open failure")
 	}
 	rc, err := c.ReplicaClient.OpenLTXFile(ctx, level, minTXID, maxTXID, offset, size)
-	if err != nil || bad != 2 {
+	if err != nil {
+		if errors.Is(err, os.ErrNotExist) || os.IsNotExist(err) {
+			setOutc(3)
+		} else {
+			setOutc(1)
+		}
 		return rc, err
 	}
+	if bad != 2 {
+		return rc, err
+	}
+	setOutc(2)
 	b, err := io.ReadAll(rc)
 	_ = rc.Close()
 	if err != nil {
@@ -123,6 +160,10 @@ func (c *obsClient) takeOpens() []fkey {
 	defer c.mu.Unlock()
 	o := c.opens
 	c.opens = nil
+	c.lastOutc = c.outc
+	c.outc = nil
+	c.lastListAfterOp = c.listAfterOp
+	c.opDone, c.listAfterOp = false, false
 	return o
 }
 
@@ -479,11 +520,42 @@ func (rp *report) violate(sig, detail string, replay any) {
 }
 
 // emitPoll writes the model case and the spec-oracle case of one poll.
-func (rp *report) emitPoll(ls [10][]finfo, bad map[fkey]int, t uint64, opens []fkey, t2 uint64, class string) {
-	lst := sxListing(ls, bad)
+//
+// opens = every OpenLTXFile call of the poll, outc = its outcome (0 ok, 1 open
+// error, 2 corrupted, 3 not-exist). The model case carries the attempted
+// sequence; the oracle gets what was ACTUALLY applied (a file that could not be
+// opened was not applied) and whether anything failed.
+func (rp *report) emitPoll(ls [10][]finfo, bad map[fkey]int, t uint64, opens []fkey, outc []int, t2 uint64, class string, modelCase bool) []fkey {
+	bad2 := map[fkey]int{}
+	for k, v := range bad {
+		bad2[k] = v
+	}
+	var actual []fkey
+	failed := 0
+	for i, k := range opens {
+		o := 0
+		if i < len(outc) {
+			o = outc[i]
+		}
+		if o != 0 {
+			failed = 1
+		}
+		if o == 3 {
+			rp.extra["opens_of_vanished_files"]++
+		}
+		if (o == 1 || o == 3) && bad2[k] == 0 {
+			bad2[k] = o
+		}
+		if o == 0 || o == 2 {
+			actual = append(actual, k)
+		}
+	}
+	lst := sxListing(ls, bad2)
 	nontrivial := len(opens) > 0
-	rp.cw.Add("follow_poll", L(lst, U(t)), L(sxOpens(opens), U(t2)), class, nontrivial)
-	rp.cw.Add("follow_applied_ok", L(lst, U(t), sxOpens(opens), U(t2), I(0)), I(1), class+"/oracle", nontrivial)
+	if modelCase {
+		rp.cw.Add("follow_poll", L(lst, U(t)), L(sxOpens(opens), U(t2)), class, nontrivial)
+	}
+	rp.cw.Add("follow_applied_ok", L(lst, U(t), sxOpens(actual), U(t2), I(0), I(int64(failed))), I(1), class+"/oracle", nontrivial)
 	bridged := false
 	for _, k := range opens {
 		if k.level > 0 {
@@ -498,10 +570,11 @@ func (rp *report) emitPoll(ls [10][]finfo, bad map[fkey]int, t uint64, opens []f
 	} else {
 		rp.extra["polls_idle"]++
 	}
+	return actual
 }
 
 func (rp *report) emitQuiescent(ls [10][]finfo, bad map[fkey]int, t0 uint64, all []fkey, t2 uint64, class string) {
-	rp.cw.Add("follow_applied_ok", L(sxListing(ls, bad), U(t0), sxOpens(all), U(t2), I(1)), I(1), class+"/quiescent", len(all) > 0)
+	rp.cw.Add("follow_applied_ok", L(sxListing(ls, bad), U(t0), sxOpens(all), U(t2), I(1), I(0)), I(1), class+"/quiescent", len(all) > 0)
 }
 
 // ---------------------------------------------------------------------------
@@ -628,7 +701,7 @@ func runHistory(seed int64, idx int, work string, rp *report) error {
 			return false, false
 		}
 		t2 := readSidecar(out)
-		rp.emitPoll(ls, nil, t, opens, t2, class)
+		rp.emitPoll(ls, nil, t, opens, ses.oc.lastOutc, t2, class, true)
 		checkContent(fmt.Sprintf("after poll from %d", t))
 		return t2 != t, true
 	}
@@ -651,8 +724,7 @@ func runHistory(seed int64, idx int, work string, rp *report) error {
 				return
 			}
 			t2 := readSidecar(out)
-			rp.emitPoll(ls, nil, t, opens, t2, class)
-			all = append(all, opens...)
+			all = append(all, rp.emitPoll(ls, nil, t, opens, ses.oc.lastOutc, t2, class, true)...)
 			checkContent(fmt.Sprintf("after poll from %d", t))
 			if t2 == t {
 				break
@@ -798,6 +870,249 @@ func ses2str(cl int) string {
 		return "saved TXID is ahead of latest snapshot"
 	}
 	return "class " + strconv.Itoa(cl)
+}
+
+
+// ---------------------------------------------------------------------------
+// race generator: the primary compacts / deletes BETWEEN the follower's listing
+// and one of its OpenLTXFile calls (list/open race). Enumerated: which listed
+// file disappears (first / middle / all but the newest; from L0 while L1 covers
+// it, from L1 while L2 covers it), through direct deletion or through the real
+// retention paths, with the operation placed before the first or the second open.
+
+type raceSpec struct {
+	level  int    // level whose listed files disappear
+	which  string // first | middle | allbutnewest | retention
+	atOpen int    // the operation runs before this open of the poll
+}
+
+func raceSpecs() []raceSpec {
+	var out []raceSpec
+	for _, lv := range []int{0, 1} {
+		for _, w := range []string{"first", "middle", "allbutnewest", "retention"} {
+			for _, k := range []int{0, 1} {
+				out = append(out, raceSpec{lv, w, k})
+			}
+		}
+	}
+	return out
+}
+
+func runRace(seed int64, idx int, spec raceSpec, work string, rp *report) error {
+	r := NewRand(seed*131 + int64(idx)*17 + 9)
+	dir := filepath.Join(work, fmt.Sprintf("race%d", idx))
+	_ = os.RemoveAll(dir)
+	if err := os.MkdirAll(dir, 0o755); err != nil {
+		return err
+	}
+	defer os.RemoveAll(dir)
+	ps := []int{512, 1024, 4096}[idx%3]
+	p, err := openPrimary(dir, ps, time.Hour)
+	if err != nil {
+		return err
+	}
+	defer p.close()
+	ctx := context.Background()
+	class := fmt.Sprintf("race/L%d/%s/open%d", spec.level, spec.which, spec.atOpen)
+	rpl := map[string]any{"kind": "race", "seed": seed, "idx": idx, "level": spec.level, "which": spec.which, "at_open": spec.atOpen,
+		"how": fmt.Sprintf("h_follow follow -out <dir> -race-seed %d -race-idx %d", seed, idx)}
+	step := func(n int) error {
+		for i := 0; i < n; i++ {
+			if _, err := p.appOp(r); err != nil {
+				return err
+			}
+			if err := p.sync(); err != nil {
+				return err
+			}
+		}
+		return nil
+	}
+	if err := step(3); err != nil {
+		return err
+	}
+	out := filepath.Join(dir, "follower.db")
+	ses := startSession(p.repDir, out, nil)
+	if !ses.await() {
+		return fmt.Errorf("race: follower did not start: %v", ses.endErr)
+	}
+	// the follower now lags: stop it, let the primary move on, restart it (resume)
+	if err := ses.stop(); err != nil {
+		return fmt.Errorf("race: stop: %v", err)
+	}
+	if err := step(4 + r.Intn(2)); err != nil {
+		return err
+	}
+	if spec.level == 1 {
+		// L0 compacted away (only the newest kept): the follower has to bridge from two or three L1 files
+		p.db.L0Retention = time.Nanosecond
+		if _, err := p.db.Compact(ctx, 1); err != nil {
+			return fmt.Errorf("race: compact1: %w", err)
+		}
+		for i := 0; i < 2; i++ {
+			if err := step(2); err != nil {
+				return err
+			}
+			if _, err := p.db.Compact(ctx, 1); err != nil {
+				return fmt.Errorf("race: compact1: %w", err)
+			}
+		}
+		if err := step(1); err != nil {
+			return err
+		}
+	}
+	ses = startSession(p.repDir, out, nil)
+	if !ses.await() {
+		cl := errClass(ses.endErr)
+		return fmt.Errorf("race: follower did not resume: class %d", cl)
+	}
+	defer func() { _ = ses.stop() }()
+	t0 := readSidecar(out)
+	del := func(level int, fs []finfo) {
+		var a []*ltx.FileInfo
+		for _, f := range fs {
+			a = append(a, &ltx.FileInfo{Level: level, MinTXID: ltx.TXID(f.min), MaxTXID: ltx.TXID(f.max)})
+		}
+		_ = p.client.DeleteLTXFiles(ctx, a)
+	}
+	var opErr error
+	ses.oc.beforeOpen = func(i int, k fkey) {
+		if i != spec.atOpen || ses.oc.opDone {
+			return
+		}
+		ses.oc.mu.Lock()
+		ses.oc.opDone = true
+		ses.oc.mu.Unlock()
+		ls := listAll(p.repDir)
+		var cand []finfo // listed files of the level the follower still has to open
+		for _, f := range ls[spec.level] {
+			if f.max > t0 {
+				cand = append(cand, f)
+			}
+		}
+		if spec.level == 0 {
+			if spec.which == "retention" {
+				p.db.L0Retention = time.Nanosecond // Compact(1) + EnforceL0RetentionByTime
+			}
+			if _, err := p.db.Compact(ctx, 1); err != nil {
+				opErr = fmt.Errorf("race op compact1: %w", err)
+				return
+			}
+		} else {
+			if _, err := p.db.Compact(ctx, 2); err != nil {
+				opErr = fmt.Errorf("race op compact2: %w", err)
+				return
+			}
+			if spec.which == "retention" {
+				l2 := listAll(p.repDir)[2]
+				if len(l2) > 0 {
+					_ = p.db.EnforceRetentionByTXID(ctx, 1, ltx.TXID(l2[len(l2)-1].max))
+				}
+			}
+		}
+		if len(cand) == 0 {
+			return
+		}
+		switch spec.which {
+		case "first":
+			del(spec.level, cand[:1])
+		case "middle":
+			if len(cand) >= 3 {
+				del(spec.level, cand[len(cand)/2:len(cand)/2+1])
+			} else if len(cand) == 2 {
+				del(spec.level, cand[:1])
+			}
+		case "allbutnewest":
+			del(spec.level, cand[:len(cand)-1])
+		}
+	}
+	// the racing poll
+	ls := listAll(p.repDir)
+	opens, alive := ses.poll()
+	ses.oc.beforeOpen = nil
+	if opErr != nil {
+		return opErr
+	}
+	if !alive {
+		rp.violate("C16/follower-died", fmt.Sprintf("%s: Restore(Follow) returned during the racing poll: class %d", class, errClass(ses.endErr)), rpl)
+		return nil
+	}
+	rp.extra["race_polls"]++
+	t1 := readSidecar(out)
+	// the model case is exact only if the follower listed nothing after the primary's operation
+	rp.emitPoll(ls, nil, t0, opens, ses.oc.lastOutc, t1, class, !ses.oc.lastListAfterOp)
+	check := func(when string) {
+		side := readSidecar(out)
+		got, err := os.ReadFile(out)
+		if err != nil {
+			return
+		}
+		want, err := p.ref(side)
+		if err != nil {
+			rp.extra["ref_unavailable"]++
+			return
+		}
+		rp.extra["content_comparisons"]++
+		if d := diffDB(got, want, ps); d != "" {
+			rp.violate("C16/follower-differs-from-restore-of-sidecar-txid",
+				fmt.Sprintf("%s, %s (files vanished between the follower's listing and its open): follower content != Restore(TXID=%d): %s", class, when, side, d), rpl)
+		}
+	}
+	raceFailed := false
+	for _, o := range ses.oc.lastOutc {
+		if o != 0 {
+			raceFailed = true
+		}
+	}
+	if raceFailed {
+		rp.extra["race_polls_with_failed_open"]++
+		if t1 != t0 {
+			rp.violate("C16/sidecar-advanced-by-a-failed-poll", fmt.Sprintf("%s: an OpenLTXFile of the poll failed (file vanished) but the sidecar went %d -> %d", class, t0, t1), rpl)
+		}
+	} else {
+		check("after the racing poll")
+	}
+	// let it settle
+	for i := 0; i < 50; i++ {
+		ls := listAll(p.repDir)
+		t := readSidecar(out)
+		opens, alive := ses.poll()
+		if !alive {
+			rp.violate("C16/follower-died", fmt.Sprintf("%s: Restore(Follow) returned: class %d", class, errClass(ses.endErr)), rpl)
+			return nil
+		}
+		t2 := readSidecar(out)
+		rp.emitPoll(ls, nil, t, opens, ses.oc.lastOutc, t2, class, true)
+		if t2 < t {
+			rp.violate("C16/sidecar-regressed", fmt.Sprintf("%s: sidecar %d -> %d", class, t, t2), rpl)
+		}
+		settled := true
+		for _, o := range ses.oc.lastOutc {
+			if o != 0 {
+				settled = false
+			}
+		}
+		if settled {
+			check(fmt.Sprintf("after poll from %d", t))
+		}
+		if t2 == t {
+			break
+		}
+	}
+	latest := maxTXID(listAll(p.repDir), 8)
+	if tEnd := readSidecar(out); tEnd != latest {
+		rp.violate("C16/follower-did-not-converge", fmt.Sprintf("%s: replica static, latest %d, follower stopped at %d", class, latest, tEnd), rpl)
+		return nil
+	}
+	tmp := filepath.Join(dir, "latest.db")
+	if err := restoreTo(p.repDir, 0, tmp); err == nil {
+		want, _ := os.ReadFile(tmp)
+		got, _ := os.ReadFile(out)
+		rp.extra["converged_comparisons"]++
+		if d := diffDB(got, want, ps); d != "" {
+			rp.violate("C16/converged-follower-differs-from-latest-restore", fmt.Sprintf("%s: follower != Restore(latest): %s", class, d), rpl)
+		}
+	}
+	return nil
 }
 
 // ---------------------------------------------------------------------------
@@ -974,8 +1289,7 @@ func runSyn(sc synCase, work string, rp *report, class string) error {
 			return nil
 		}
 		t2 := readSidecar(out)
-		rp.emitPoll(sc.levels, sc.bad, t, opens, t2, class)
-		all = append(all, opens...)
+		all = append(all, rp.emitPoll(sc.levels, sc.bad, t, opens, ses.oc.lastOutc, t2, class, true)...)
 		if t2 < t {
 			rp.violate("C16/sidecar-regressed", fmt.Sprintf("synthetic listing: sidecar %d -> %d", t, t2), nil)
 		}
@@ -1422,6 +1736,9 @@ func main() {
 	replay := fl.String("replay", "", "case file whose follow_poll inputs are re-run on the implementation")
 	histSeed := fl.Int64("hist-seed", 0, "re-run one history: seed")
 	histIdx := fl.Int("hist-idx", -1, "re-run one history: index")
+	raceSeed := fl.Int64("race-seed", 0, "re-run one list/open race: seed")
+	raceIdx := fl.Int("race-idx", -1, "re-run one list/open race: index")
+	races := fl.Int("races", 1, "0 = skip the list/open race enumeration")
 	child := fl.Bool("child", false, "internal: follower child process")
 	crep := fl.String("replica", "", "child: replica dir")
 	cdb := fl.String("db", "", "child: follower database path")
@@ -1433,11 +1750,19 @@ func main() {
 	if *child {
 		os.Exit(childMain(*crep, *cdb, *ctarget))
 	}
+	if *raceIdx >= 0 {
+		*histSeed, *histIdx = *raceSeed, -2-*raceIdx
+	}
+	if *races == 0 {
+		skipRaces = true
+	}
 	if err := run(*out, *n, *nsyn, *seed, *kills, *replay, *histSeed, *histIdx); err != nil {
 		fmt.Fprintln(os.Stderr, "harness error:", err)
 		os.Exit(3)
 	}
 }
+
+var skipRaces bool
 
 func run(out string, n, nsyn int, seed int64, kills int, replay string, histSeed int64, histIdx int) error {
 	if out == "" {
@@ -1504,6 +1829,13 @@ func run(out string, n, nsyn int, seed int64, kills int, replay string, histSeed
 			return err
 		}
 		return finish()
+	case histIdx <= -2:
+		i := -2 - histIdx
+		sp := raceSpecs()
+		if err := runRace(histSeed, i, sp[i%len(sp)], work, rp); err != nil {
+			return err
+		}
+		return finish()
 	}
 	r := NewRand(seed)
 	if nsyn < 0 {
@@ -1517,6 +1849,13 @@ func run(out string, n, nsyn int, seed int64, kills int, replay string, histSeed
 	for i := 0; i < n; i++ {
 		if err := runHistory(seed, i, work, rp); err != nil {
 			return fmt.Errorf("history %d: %w", i, err)
+		}
+	}
+	if !skipRaces {
+		for i, sp := range raceSpecs() {
+			if err := runRace(seed, i, sp, work, rp); err != nil {
+				return fmt.Errorf("race %d (%+v): %w", i, sp, err)
+			}
 		}
 	}
 	if kills != 0 {
